@@ -15,7 +15,7 @@ PROP = {
         'Altrios.Proofs.C08.C08_loco_step', 'Altrios.Proofs.C08.C08_loco_dyn_zero', 'Altrios.Proofs.C08.C08_walk_monotone',
         'Altrios.Proofs.C08.C08_walk_step',
         'Altrios.Proofs.C08Hyb.C08_hybrid_step', 'Altrios.Proofs.C08Hyb.C08_hybrid_handoff', 'Altrios.Proofs.C08Hyb.C08_hybrid_res_share_le_max',
-        'Altrios.Proofs.C08Hyb.C08_hybrid_gss_bounds', 'Altrios.Proofs.C08Hyb.C08_hybrid_loco_step', 'Altrios.Proofs.C08Hyb.C08_hybrid_engine_off_counterexample',
+        'Altrios.Proofs.C08Hyb.C08_hybrid_gss_bounds', 'Altrios.Proofs.C08Hyb.C08_hybrid_ledger', 'Altrios.Proofs.C08Hyb.C08_hybrid_loco_step', 'Altrios.Proofs.C08Hyb.C08_hybrid_engine_off_counterexample',
     ] + KERNEL_THEOREMS,
     'nontrivial_stats': ['pt.loco.traction', 'pt.loco.braking', 'pt.loco.engine_off_step',
                          'pt.consist.traction_', 'pt.consist.braking_', 'pt.hyb.traction', 'pt.hyb.braking', 'pt.hyb.split_changed_by_search'],
